@@ -61,10 +61,10 @@ def main():
         with open(os.path.join(d, 'src', 'lib.rs'), 'a') as fh:
             fh.write('\n#[doc(hidden)]\npub mod vmprobe;\n#[doc(hidden)]\npub mod vmprobe2;\n#[doc(hidden)]\npub mod vmprobe3;\n')
         env = dict(os.environ, CARGO_NET_OFFLINE='true', CARGO_TARGET_DIR=os.path.join(d, 'target'))
-        r = subprocess.run(['cargo', 'test', '--offline', '--lib', 'vmprobe', '--', '--nocapture'], cwd=d, env=env, capture_output=True, text=True)
+        r = subprocess.run(['cargo', 'test', '--offline', '--lib', 'vmprobe', '--', '--nocapture', '--test-threads=1'], cwd=d, env=env, capture_output=True, text=True)
         exp = collections.defaultdict(dict)
         for line in r.stdout.splitlines():
-            m = re.match(r'PROBE (\w+) "(.*)"$', line.strip())
+            m = re.search(r'PROBE (\w+) "(.*)"$', line.strip())
             if m:
                 key, val = unescape(m.group(2)).split(':', 1)
                 exp[m.group(1)][key] = val
@@ -77,7 +77,7 @@ def main():
         def args_for(name):
             n = int(name[1:])
             if name[0] == 't':
-                return [(str(k), a) for k, a in enumerate(S3)] if n in (3, 11, 12, 13, 14, 23) else [(str(a), a) for a in NS]
+                return [(str(k), a) for k, a in enumerate(S3)] if n in (3, 11, 12, 13, 14, 23, 24, 25) else [(str(a), a) for a in NS]
             if name[0] == 'q':
                 return [(str(k), a) for k, a in enumerate(S2)] if 16 <= n <= 21 else [(str(a), a) for a in NS]
             if 1 <= n <= 20 or 67 <= n <= 78 or 93 <= n <= 100:
@@ -101,6 +101,10 @@ def main():
                 except Panic as e:
                     bad[name] += 1
                     print(name, key, 'PANIC', str(e)[:200])
+                    break
+                if key not in exp[name]:
+                    print(name, key, 'no compiled result', sorted(exp[name]))
+                    bad[name] += 1
                     break
                 if got != exp[name][key]:
                     bad[name] += 1
